@@ -100,7 +100,7 @@ def gen_cases(tier, seed):
                 changes.append([rng.randint(0, k), rng.choice(["unsub_a", "pause_a", "sub_all", "unsub_b", "sub_unsub", "resume_a", "unsub_all"])])
         close = rng.choice([None, {"how": "fin", "at": None}, {"how": "rst", "at": None}])
         add(kinds, sync=rng.random() < 0.5, ack=rng.random() < 0.3, tc=(i % 5 == 4), changes=sorted(changes), close=close,
-            drain_peer=rng.random() < 0.5, sub_all=rng.random() < 0.1)
+            drain_peer=rng.random() < 0.5, sub_all=rng.random() < 0.1, tmode=rng.choice(["pos", "pos", "block", "none", "long"]))
     # the peer closing after every byte offset of a frame, for every frame kind
     step = 1 if tier == "thorough" else 4
     for kind in KINDS:
@@ -361,7 +361,15 @@ def run_case(case, tier):
                     pass
             snap = {"all": st["all"], "subs": set(st["subs"])}
             try:
-                m = c.read_message(timeout=0.05, ack=flags["ack"], sync_check=flags["sync"])
+                # blocking variants are only used when the peer is going to close (so a blocking read always ends)
+                tmo = 0.05
+                if close and case.get("tmode") == "block":
+                    tmo = -1
+                elif close and case.get("tmode") == "none":
+                    tmo = None
+                elif case.get("tmode") == "long":
+                    tmo = 0.5 if call < len(frames) else 0.05
+                m = c.read_message(timeout=tmo, ack=flags["ack"], sync_check=flags["sync"])
             except ConnectionLost:
                 outcomes.append({"kind": "lost", "state": snap, "connected_after": c.connected})
                 break
